@@ -18,8 +18,10 @@ fn corpus_records(seed: u64, tier: Tier) -> Vec<(String, String)> {
                 if s >= NSHARDS {
                     break;
                 }
-                // the C17 corpus is a (smaller) slice of the C03 corpus: every third input
-                let v: Vec<(String, String)> = { let full = corpus::full_part(s, NSHARDS).len(); let all = corpus::texts(seed, tier, s, NSHARDS); let n = all.len(); all.into_iter().enumerate().filter(move |(i, _)| i % 3 == 0 || *i >= n - full) }.map(|(_, t)| { let r = record(&t); (t, r) }).collect();
+                // the C17 corpus is a (smaller) slice of the C03 corpus: every third input, and no input with more
+                // than 16 groups (whether deeply nested input is answered at all, and in what time, is C03's
+                // question; here a build that needs exponential time would only run into the watchdog)
+                let v: Vec<(String, String)> = { let full = corpus::full_part(s, NSHARDS).len(); let all = corpus::texts(seed, tier, s, NSHARDS); let n = all.len(); all.into_iter().enumerate().filter(move |(i, t)| (i % 3 == 0 || *i >= n - full) && t.bytes().filter(|b| *b == b'(').count() <= 16) }.map(|(_, t)| { let r = record(&t); (t, r) }).collect();
                 parts.lock().unwrap()[s] = v;
             });
         }
